@@ -6,8 +6,12 @@ EnumArray, and the helpers of _utils.py (_int_to_index, _str_to_index, _enum_to_
 together with the numpy.argsort / numpy.searchsorted calls _str_to_index is made of.
 
 The enumerations are created dynamically (functional API, one class per distinct
-(identity, names) pair, every class with its own name string) with 1..200 members and
-adversarial names.  The oracle evaluates the property's statement on the
+(identity, names, aliases) triple, every class with its own name string) with 1..200 members
+and adversarial names; about every third one also declares 1..3 ALIASES (a further name bound
+to the value of an existing member, declared right after it / in the middle / last).  An alias
+is not a member: it is neither in E.names nor in E.enums nor counted by len(E); E[alias] is the
+member itself; an alias NAME is an unknown name for Enum.encode (that is what the code does).
+The model therefore sees the canonical member names only.  The oracle evaluates the property's statement on the
 implementation's answer with naive Python (list.index, sorted, bisect), independently
 of the Coq model.
 """
@@ -39,7 +43,11 @@ RULE = ("per enumeration (1..200 members; names that are prefixes of each other,
         "possible_values); every accepted encode is decoded both ways and encoded again.  Plus decode of "
         "directly built EnumArrays (valid, out-of-range, negative, possible_values None) and the helper "
         "functions on partly invalid inputs.  A case is non-trivial when its input is not empty; cases are "
-        "distinct as (operation, enumeration, input)")
+        "distinct as (operation, enumeration, input).  Enumerations with 1..3 aliases (pointing at the first / a "
+        "middle / the last member, declared right after the member, in the middle or last): index inputs at "
+        "len(members) .. len(members)+aliases+1 alone and among valid ones, alias names as str input (rejected "
+        "as unknown names), members obtained through the alias (the member itself), foreign members obtained "
+        "through an alias, decode of everything accepted")
 TRUSTED = ["numpy 1.26 (asarray, isin, argsort, searchsorted, fancy indexing, unicode comparison) and Python's "
            "enum machinery are modelled by EnumModel.v (lists, insertion sort, binary search), covered by the "
            "correspondence only"]
@@ -47,7 +55,9 @@ ASSUMPTIONS = ["enumerations have at most 256 members (index dtype uint8; the ca
                "Python bool counts as int (True encodes as index 1)",
                "the identity of an enumeration is what EnumType.__eq__ compares (identity of the class-name string): "
                "every generated enumeration class has its own name string",
-               "member names are printable ASCII, non-empty, without leading underscore; inputs are one-dimensional"]
+               "member names are printable ASCII, non-empty, without leading underscore; inputs are one-dimensional",
+               "an alias (second name for an existing member's value) is not a member name: Enum.encode rejects it like "
+               "any unknown name, E[alias] is the canonical member; the model's enumeration is the list of canonical names"]
 
 INT_DTYPES = ["int8", "int16", "int32", "int64", "uint8", "uint16", "uint32", "uint64"]
 OTHER_KINDS = ["float", "bytes", "bool", "complex", "float32"]
@@ -58,21 +68,49 @@ RESERVED = {"mro", "index", "name", "value", "names", "indices", "enums", "encod
 _CLASSES: dict = {}
 
 
-def enum_class(k, names):
-    """The enumeration number k of a case: one class per (k, names), created once."""
-    key = (k, tuple(names))
+def declaration(names, aliases):
+    """The (name, value) pairs in declaration order: aliases = [[alias name, member index, position]],
+    inserted one after the other at `position` (always after the member they point at)."""
+    decl = [(n, "v%d" % i) for i, n in enumerate(names)]
+    for a, t, pos in aliases:
+        decl.insert(pos, (a, "v%d" % t))
+    return decl
+
+
+def enum_class(k, names, aliases=()):
+    """The enumeration number k of a case: one class per (k, names, aliases), created once."""
+    key = (k, tuple(names), tuple(tuple(a) for a in aliases))
     cls = _CLASSES.get(key)
     if cls is None:
         # a fresh name string per class: EnumType.__eq__ compares the identity of this string
-        cls = ie.Enum("Enum%d_%d" % (k, len(_CLASSES)), {n: "v%d" % i for i, n in enumerate(names)})
-        if list(cls.names) != list(names) or [m.index for m in cls] != list(range(len(names))):
-            raise RuntimeError(f"harness: enumeration not created as declared: {names!r}")
+        cls = ie.Enum("Enum%d_%d" % (k, len(_CLASSES)), dict(declaration(names, aliases)))
+        members = list(cls)       # Python's own view: aliases are not members
+        if ([m.name for m in members] != list(names) or [m.index for m in members] != list(range(len(names)))
+                or len(cls.__members__) != len(names) + len(aliases)
+                or any(cls[a] is not members[t] for a, t, _ in aliases)):
+            raise RuntimeError(f"harness: enumeration not created as declared: {names!r} {aliases!r}")
         _CLASSES[key] = cls
     return cls
 
 
+_MEMBERS: dict = {}
+
+
+def members_of(cls):
+    """list(cls): Python's own enumeration of the members (aliases excluded), cached."""
+    ms = _MEMBERS.get(id(cls))
+    if ms is None:
+        ms = _MEMBERS[id(cls)] = list(cls)
+    return ms
+
+
+def aliases_of(c):
+    return c.get("aliases") or [[] for _ in c["enums"]]
+
+
 def classes_of(c):
-    return [enum_class(k, names) for k, names in enumerate(c["enums"])]
+    al = aliases_of(c)
+    return [enum_class(k, names, al[k]) for k, names in enumerate(c["enums"])]
 
 
 def mk_elem(classes, el):
@@ -84,7 +122,9 @@ def mk_elem(classes, el):
     if t == "s":
         return str(el[1])
     if t == "m":
-        return classes[el[1]].enums[el[2]]
+        return members_of(classes[el[1]])[el[2]]
+    if t == "ma":             # ["ma", k, alias name, index of the member it points at]: E[alias]
+        return classes[el[1]][el[2]]
     if t == "o":
         return {"float": 1.0, "float0": 0.0, "bytes": b"a", "none": None, "npint": numpy.int64(0),
                 "list": [0], "complex": 1j}[el[1]]
@@ -179,7 +219,7 @@ def run_impl(c):
         v = c["values"] if not c["array"] else numpy.array(c["values"], dtype=numpy.str_)
         return [int(i) for i in _utils._str_to_index(E, v)]
     if op == "enum_to_index":
-        return [int(i) for i in _utils._enum_to_index([classes[k].enums[i] for k, i in c["members"]])]
+        return [int(i) for i in _utils._enum_to_index([members_of(classes[k])[i] for k, i in c["members"]])]
     if op == "argsort":
         return [int(i) for i in numpy.argsort(E.names)]
     if op == "search":
@@ -203,6 +243,8 @@ def celem(el):
         return f"(EStr {cstr(el[1])})"
     if t == "m":
         return f"(EMem ({cz(el[1])}, {cz(el[2])}))"
+    if t == "ma":             # the member the alias stands for
+        return f"(EMem ({cz(el[1])}, {cz(el[3])}))"
     return "EOther"
 
 
@@ -295,6 +337,8 @@ def element_view(c):
                 odd = odd or k == "arr_obj"
             elif t == "m":
                 items.append(("member", el[2]) if el[1] == 0 else ("bad", "member of another enumeration"))
+            elif t == "ma":       # an alias is the same member
+                items.append(("member", el[3]) if el[1] == 0 else ("bad", "member of another enumeration"))
             else:
                 items.append(("bad", f"unsupported element type {el[1]}"))
     return items, odd
@@ -505,7 +549,7 @@ DT_RANGE = {"int8": (-2 ** 7, 2 ** 7 - 1), "int16": (-2 ** 15, 2 ** 15 - 1), "in
 
 
 def bad_ints(rng, n, dtype=None):
-    cand = [-1, n, n + 1, -2, -n, -n - 1, 127, 128, 255, 256, 257, -128, -129, -255, -256, 2 * n, 1000, 65535, 65536,
+    cand = [-1, n, n + 1, n + 2, n + 3, -2, -n, -n - 1, 127, 128, 255, 256, 257, -128, -129, -255, -256, 2 * n, 1000, 65535, 65536,
             2 ** 31 - 1, 2 ** 31, -2 ** 31, 2 ** 32, 2 ** 63 - 1, -2 ** 63]
     if dtype is None:
         cand += [2 ** 63, 2 ** 64 - 1, 2 ** 64, 2 ** 70, -2 ** 70, -2 ** 63 - 1]
@@ -540,14 +584,44 @@ def place(rng, good, bad, where):
 WHERE = ["first", "last", "middle", "several", "all"]
 
 
-def battery(rng, names, foreign):
-    """All the cases generated for one enumeration (with one or two foreign ones)."""
+def gen_aliases(rng, names):
+    """1..3 aliases [alias name, index of the member it points at, position in the declaration] for the
+    enumeration `names`: pointing at the first / last / a middle member, declared right after the member, last,
+    or somewhere in between (an alias can only follow the member: the first name bound to a value is the member)."""
+    n = len(names)
+    decl = list(range(n))          # the member each declared name stands for
+    have = set(names)
+    out = []
+    for _ in range(rng.choice([1, 2, 2, 3])):
+        t = rng.choice([0, n - 1, n // 2, rng.randrange(n)])
+        base = names[t]
+        cands = [base + "_alias", base.swapcase(), base + "2", "alias_of_" + base, base + base, base[:-1], "A" + base]
+        rng.shuffle(cands)
+        a = next((w for w in cands if valid_name(w) and w not in have), None)
+        while a is None:
+            w = random_word(rng)
+            a = w if valid_name(w) and w not in have else None
+        first = decl.index(t)
+        pos = rng.choice([first + 1, len(decl), rng.randrange(first + 1, len(decl) + 1)])
+        decl.insert(pos, t)
+        have.add(a)
+        out.append([a, t, pos])
+    return out
+
+
+def battery(rng, names, foreign, aliases=None):
+    """All the cases generated for one enumeration (with one or two foreign ones).
+    aliases: per enumeration, the aliases it declares (see gen_aliases)."""
     n = len(names)
     enums = [names] + foreign
+    aliases = aliases or [[] for _ in enums]
+    has_alias = any(aliases)
     cases = []
 
     def add(op, **kw):
         d = {"op": op, "enums": enums}
+        if has_alias:
+            d["aliases"] = aliases
         d.update(kw)
         cases.append(d)
 
@@ -568,7 +642,42 @@ def battery(rng, names, foreign):
     fmembers = [["m", k, i] for k in range(1, len(enums)) for i in
                 sorted({0, len(enums[k]) - 1, min(len(enums[k]) - 1, n), rng.randrange(len(enums[k]))})]
     misses = near_misses(rng, names)
+    misses += [a for a, _, _ in aliases[0] if a not in misses] * 2      # an alias name is not a member name
 
+    # -- the first index that designates no member, alone and after a valid one ---------------------------
+    enc({"k": "arr_int", "dtype": rng.choice(["int16", "int32", "int64", "uint8", "uint16", "uint32", "uint64"]), "values": [n]})
+    enc(seq([["i", n - 1], ["i", n]]))
+    # -- enumerations that declare aliases ------------------------------------------------------------------
+    if aliases[0]:
+        al0 = aliases[0]
+        wide = ["int16", "int32", "int64", "uint8", "uint16", "uint32", "uint64"]
+        for j in range(len(al0) + 2):        # len(members) .. len(members) + aliases + 1: none designates a member
+            v = n + j
+            enc({"k": "arr_int", "dtype": rng.choice(wide), "values": [v]})
+            enc(seq([["i", v]]))
+            vals = place(rng, idx(lengths(rng, n)), [v], rng.choice(["first", "last", "middle"]))
+            if rng.random() < 0.5:
+                enc({"k": "arr_int", "dtype": rng.choice(wide), "values": vals})
+            else:
+                enc(seq([["i", x] for x in vals]))
+            add("decode", pv=0, dtype="int64", values=[v])
+        add("int_to_index", dtype=rng.choice([None, "int64", "uint8"]), values=list(range(max(0, n - 2), n + len(al0) + 2)))
+        for a, t, _ in al0:                  # the alias NAME: rejected like any unknown name
+            enc(seq([["s", a]]) if rng.random() < 0.5 else {"k": "arr_str", "values": [a]})
+            vals = place(rng, [names[i] for i in idx(lengths(rng, n))], [a], rng.choice(["first", "last", "middle"]))
+            enc({"k": "arr_str", "values": vals} if rng.random() < 0.5 else seq([["s", s] for s in vals]))
+        add("str_to_index", array=rng.random() < 0.5, values=[a for a, _, _ in al0] + [names[0], names[-1]])
+        am = [["ma", 0, a, t] for a, t, _ in al0]      # E[alias]: the member itself
+        enc(seq(am))
+        vals = am + [["m", 0, i] for i in idx(rng.randrange(1, 6))]
+        rng.shuffle(vals)
+        enc({"k": "arr_obj", "elems": vals} if rng.random() < 0.5 else seq(vals))
+        enc({"k": "arr_obj", "elems": [["ma", 0, a, t] for a, t, _ in al0] + [["m", 0, n - 1]]})
+    for k in range(1, len(enums)):           # a foreign member obtained through an alias of its enumeration
+        if aliases[k]:
+            fm = [["ma", k, a, t] for a, t, _ in aliases[k]]
+            vals = place(rng, [["m", 0, i] for i in idx(rng.randrange(1, 6))], fm, rng.choice(WHERE))
+            enc({"k": "arr_obj", "elems": vals} if rng.random() < 0.5 else seq(vals))
     # -- names --------------------------------------------------------------------------------
     for _ in range(3):
         good = [names[i] for i in idx(lengths(rng, n))]
@@ -687,7 +796,12 @@ def generate(rng, tier):
                 f = list(dict.fromkeys(rng.sample(names, min(n, m)) + f))[:m]
                 rng.shuffle(f)
             foreign.append(f)
-        cases += battery(rng, names, foreign)
+        aliases = [[] for _ in range(1 + len(foreign))]
+        if i % 3 == 1 or rng.random() < 0.1:          # about every third enumeration declares aliases
+            aliases[0] = gen_aliases(rng, names)
+            if rng.random() < 0.5:
+                aliases[1] = gen_aliases(rng, foreign[0])
+        cases += battery(rng, names, foreign, aliases)
     return cases
 
 
